@@ -128,7 +128,8 @@ def denorm_p(op, p, ver):
         return {"versions": [ver_of(v) for v in p["versions"]]}
     if op == "DeriveKey":
         return {"otype": p["otype"], "uids": list(p["uids"]), "method": p.get("method", "HMAC"),
-                "dp": {"cp": {"hash": "SHA_256"}, "data": "0011"}, "attrs": [denorm_attr(a) for a in p["attrs"]]}
+                "dp": ({"cp": {"hash": "SHA_256"}} if p.get("method") == "HASH" else {"cp": {"hash": "SHA_256"}, "data": "0011"}),
+                "attrs": [denorm_attr(a) for a in p["attrs"]]}
     return dict(p)
 
 
